@@ -202,12 +202,6 @@ theorem shutdown_completes (v : Variant) (s : St) (h : Reachable v s) (a : List 
 
 /-! ## silencing -/
 
-/-- which producer thread executes a step (flusher and `~Log` steps belong to none) -/
-def owner : Step → Option Nat
-  | .debugLog m => some m.tid
-  | .stmt t _ _ => some t
-  | _ => none
-
 /-- What a thread hands to the logger, and its own flag, are functions of that thread's own steps:
 two schedules that agree on thread `u`'s steps – whatever DISABLE / ENABLE tokens, lines, kmsg records
 the other threads, the flusher or shutdown interleave – make `u` offer exactly the same lines. -/
